@@ -9,6 +9,7 @@ from framework import Check
 
 OUT = re.compile(r"^RET (-?\d+) valid=(true|false) configured=(\S*) started=(\S*)(?: pre=(\S+)/(true|false))?$")
 SHARDS = 6
+ENV = {"VERIF_REPO_CONFIG": C.REPO + "/config"}       # where the probe finds the shipped config/*.tmpl of the tree under test
 
 
 def strip(line):
@@ -54,7 +55,8 @@ def differential(chk, cases, name, timeout=6000):
 
     def work(k):
         try:
-            outs[k] = chk.run_impl("config", "TestVerifProbeConfig", parts[k], name="%s_%d" % (name, k), timeout=timeout)
+            outs[k] = chk.run_impl("config", "TestVerifProbeConfig", parts[k], name="%s_%d" % (name, k), timeout=timeout,
+                                   extra_env=ENV)
         except Exception as e:      # re-raised in the main thread (ProbeBroken / ProbeCrashed are handled by the framework)
             errs.append(e)
 
@@ -167,7 +169,8 @@ def replay(path):
     obj = json.load(open(path))
     chk = Check("C19", "quick", int(obj.get("seed", 1)))
     case = obj["case"]
-    impl, model, mism = chk.differential("config", "config", "TestVerifProbeConfig", [case], name="replay", project=strip)
+    impl, model, mism = chk.differential("config", "config", "TestVerifProbeConfig", [case], name="replay", project=strip,
+                                         extra_env=ENV)
     nreq, reqs = spec_reqs(model[0])
     ok, why = oracle(impl[0], nreq > 0)
     print("case   :", " ".join(case.split()[:3]), " context:", G.parse_ctx(case))
